@@ -218,7 +218,14 @@ def run_textmut(case):
     if not idxs:
         return {"nontrivial": False, "classes": ["no-token"]}
     for pos, rep in case["muts"]:
-        toks[idxs[pos % len(idxs)]] = _NUMS[rep % len(_NUMS)]
+        if rep < 0:
+            # swap two tokens (SVCB parameters may come in any order; elsewhere this is
+            # usually rejected or means something else, the oracle below holds either way)
+            i = idxs[pos % len(idxs)]
+            j = idxs[(pos - rep) % len(idxs)]
+            toks[i], toks[j] = toks[j], toks[i]
+        else:
+            toks[idxs[pos % len(idxs)]] = _NUMS[rep % len(_NUMS)]
     text = " ".join(toks)
     try:
         # a replaced name token may now be relative: read everything against the root
@@ -250,7 +257,10 @@ def run_textmut(case):
 def textmut_cases(draw, types):
     tname = R.type_choice(draw, types)
     case = draw(R.record(ctx={}, name=tname))
-    case["muts"] = draw(st.lists(st.tuples(st.integers(0, 12), st.integers(0, len(_NUMS) - 1)), min_size=1, max_size=2).map(lambda l: [list(x) for x in l]))
+    rep = st.integers(0, len(_NUMS) - 1)
+    if tname in ("SVCB", "HTTPS") or draw(st.integers(0, 9)) == 0:
+        rep = st.one_of(rep, st.integers(-3, -1), st.integers(-3, -1))
+    case["muts"] = draw(st.lists(st.tuples(st.integers(0, 12), rep), min_size=1, max_size=2).map(lambda l: [list(x) for x in l]))
     return case
 
 
